@@ -219,7 +219,11 @@ def handle (op : String) (j : Json) : Option Json :=
         (match getStr j "schema" with
          | some sc => sc ++ "_"
          | none => "")
-      some (obj [("recreated", Json.bool out.recreated), ("stmts", strs (out.trace.map stmtTok)),
+      let sl := match getStr j "schema" with
+        | some sc => sc ++ "_"
+        | none => ""
+      some (obj [("recreated", Json.bool out.recreated),
+                 ("recreates", Json.bool (recreates (sl ++ getStrD j "table") (getBoolD j "always" true) ops)), ("stmts", strs (out.trace.map stmtTok)),
                  ("outcome", errJson out.err), ("final", dbToJson out.final)])
   | "batch.spec10" =>
     match opsOfJson j with
